@@ -191,6 +191,47 @@ pub open spec fn aaa_inv(a: Aaa) -> bool {
     &&& a.stack.len() < 0x7fff_fff0 && a.list.len() < usize::MAX - 16
 }
 
+/// aaa_inv without the size assumption
+pub open spec fn aaa_core(a: Aaa) -> bool {
+    &&& forall|i: int| 0 <= i < a.stack.len() ==> (#[trigger] a.stack[i]).id@ < a.created
+    &&& forall|i: int| 0 <= i < a.list.len() && (#[trigger] a.list[i]) is Element ==> a.list[i]->Element_0.id@ < a.created
+    &&& forall|i: int| 0 <= i < a.list.len() && (#[trigger] a.list[i]) is Element ==> elem_name_of(a.list[i]->Element_0) == html_name(a.list[i]->Element_1.name)
+    &&& a.stack.len() > 0 && html_named(a.stack[0], local_name!("html")) && ts_special_tag(elem_name_of(a.stack[0]))
+}
+pub proof fn lemma_core_inv(a: Aaa)
+    ensures aaa_inv(a) == (aaa_core(a) && a.stack.len() < 0x7fff_fff0 && a.list.len() < usize::MAX - 16),
+{ reveal(aaa_inv); }
+/// a state that keeps a prefix of the stack (with the root) and the list, possibly without one entry, keeps the invariant
+pub proof fn lemma_inv_shrink(a: Aaa, b: Aaa, m: int, drop: int)
+    requires aaa_inv(a), 1 <= m <= a.stack.len(), b.stack == a.stack.take(m), b.created == a.created,
+             b.list == a.list || (0 <= drop < a.list.len() && b.list == a.list.remove(drop)),
+    ensures aaa_inv(b),
+{
+    reveal(aaa_inv);
+    assert(b.stack[0] == a.stack[0]);
+    assert forall|i: int| 0 <= i < b.stack.len() implies (#[trigger] b.stack[i]).id@ < b.created by { assert(b.stack[i] == a.stack[i]); }
+    if b.list != a.list {
+        assert forall|i: int| 0 <= i < b.list.len() && (#[trigger] b.list[i]) is Element implies b.list[i]->Element_0.id@ < b.created
+            && elem_name_of(b.list[i]->Element_0) == html_name(b.list[i]->Element_1.name) by {
+            if i < drop { assert(b.list[i] == a.list[i]); } else { assert(b.list[i] == a.list[i + 1]); }
+        }
+    }
+}
+/// pushing a new element (created for `tag`) and giving it entry p of the list keeps the core invariant
+pub proof fn lemma_core_push_replace(c: Aaa, p: int, tag: Tag, b: Aaa)
+    requires
+        aaa_core(c), 0 <= p < c.list.len(), elem_name_of(fresh_handle(c.created)) == html_name(tag.name),
+        b.stack == c.stack.push(fresh_handle(c.created)), b.list == c.list.update(p, FormatEntry::Element(fresh_handle(c.created), tag)), b.created == c.created + 1,
+    ensures aaa_core(b),
+{
+    let new = fresh_handle(c.created);
+    assert forall|i: int| 0 <= i < b.stack.len() implies (#[trigger] b.stack[i]).id@ < b.created by { if i < c.stack.len() { assert(b.stack[i] == c.stack[i]); } }
+    assert(b.stack[0] == c.stack[0]);
+    assert forall|i: int| 0 <= i < b.list.len() && (#[trigger] b.list[i]) is Element implies b.list[i]->Element_0.id@ < b.created
+        && elem_name_of(b.list[i]->Element_0) == html_name(b.list[i]->Element_1.name) by {
+        if i != p { assert(b.list[i] == c.list[i]); }
+    }
+}
 pub open spec fn list_has(l: Seq<FormatEntry>, h: Handle) -> bool { exists|i: int| 0 <= i < l.len() && (#[trigger] l[i]) is Element && l[i]->Element_0 == h }
 pub open spec fn stack_has(st: Seq<Handle>, h: Handle) -> bool { exists|i: int| 0 <= i < st.len() && #[trigger] st[i] == h }
 pub open spec fn bm_spec(b: Bookmark) -> Option<Handle> { match b { Bookmark::Replace(_) => None, Bookmark::InsertAfter(h) => Some(h) } }
@@ -421,3 +462,24 @@ pub proof fn lemma_finish_inv(i: Inner, a1: Aaa, fe: Handle, fe_tag: Tag, fb: Ha
     assert(st2[0] == st1[0]);
     assert(st1[0] == c.stack[0]);
 }
+
+/// "any other end tag" for a non-special name keeps the invariant (the element it closes is not the root)
+pub proof fn lemma_other_end_inv(a: Aaa, subject: LocalName)
+    requires aaa_inv(a), !ts_special_tag(html_name(subject)),
+    ensures aaa_inv(other_end(a, subject)),
+{
+    reveal(aaa_inv);
+    lemma_other_end(a.stack, a.stack.len() as int, subject);
+    match w_other_end(a.stack, a.stack.len() as int, subject) {
+        Some(k) => {
+            assert(k >= 1) by { if k == 0 { assert(html_named(a.stack[0], subject)); } }
+            lemma_inv_shrink(a, Aaa { errs: other_end(a, subject).errs, stack: a.stack.take(k), ..a }, k, 0);
+        },
+        None => { assert(a.stack.take(a.stack.len() as int) =~= a.stack); lemma_inv_shrink(a, other_end(a, subject), a.stack.len() as int, 0); },
+    }
+}
+/// the invariant does not mention the error count or the DOM log
+pub proof fn lemma_errs_inv(a: Aaa, errs: nat)
+    requires aaa_inv(a),
+    ensures aaa_inv(Aaa { errs: errs, ..a }),
+{ reveal(aaa_inv); }
